@@ -62,6 +62,26 @@ def drop(p, k):
             else:
                 gs.append([s0, n])
         q['mce'] = gs
+    if 'blocks' in q:
+        def ren2(a):
+            if isinstance(a, list) and a and a[0] == 'v':
+                if a[1] == k:
+                    raise KeyError
+                return ['v', a[1] - (1 if a[1] > k else 0), a[2]]
+            if isinstance(a, list) and a and a[0] in ('c', 'p'):
+                return a
+            if isinstance(a, list):
+                return [ren2(x) for x in a]
+            return a
+        out = []
+        try:
+            for s0, n, spec in q['blocks']:
+                if s0 <= k < s0 + n:
+                    return None
+                out.append([s0 - 1 if k < s0 else s0, n, {'form': spec['form'], 'rows': ren2(spec['rows']), 'result': ren2(spec['result'])}])
+        except KeyError:
+            return None
+        q['blocks'] = out
     return q
 
 
